@@ -33,9 +33,12 @@ def same_container(world, a_view, b_view):
     if a_view['name'] != b_view['name'] or a_view['cap'] != b_view['cap']:
         return False
     g = 2 * world.cfg.grain
-    if abs(a_view['vol'] - b_view['vol']) > g + 1e-12 * abs(a_view['vol']):
-        return False
     ca, cb = bench.contents_of(a_view), bench.contents_of(b_view)
+    ref = world.ref
+    # two grains of each substance, expressed as volume, plus two grains of the cached volume itself
+    gv = sum(2 * ref.grain_base(n) * abs(ref.subs[n].factor('L')) for n in set(ca) | set(cb)) / world.cfg.vol_mult + g
+    if abs(a_view['vol'] - b_view['vol']) > gv + 1e-12 * abs(a_view['vol']):
+        return False
     for n in set(ca) | set(cb):
         x, y = ca.get(n, 0.0), cb.get(n, 0.0)
         if abs(x - y) > g + 1e-12 * max(abs(x), abs(y)):
